@@ -15,12 +15,12 @@ def run(ctx):
             r0 = ctx.model_check("state", "MC_WorldState", "MC_WorldState_cov.cfg", coverage=True, timeout=900)
             ctx.check_coverage(r0, ["SetBalance", "SetValue", "DeleteValue", "InitContract", "Touch", "GetSnapshot", "Reset",
                                     "ClearCache", "Flush", "Reload"])
-            # quick: every history of <= 6 calls; thorough: every history (no bound) over 2 accounts x 1 key x 1 snapshot slot
-            ctx.model_check("state", "MC_WorldState", ctx.pick("MC_WorldState_quick.cfg", "MC_WorldState.cfg"),
+            # every history (no bound) over 2 accounts x 1 storage key x balance 0..1 x contract flag x 1 snapshot slot
+            ctx.model_check("state", "MC_WorldState", "MC_WorldState.cfg",
                             timeout=ctx.pick(900, 3000))
             ctx.exhaustive = not ctx.quick()  # thorough also replays the complete BFS set of depth 2
         allb = ctx.behaviours("state", "Gen_WorldState", "Gen_WorldState.cfg", constants={"MaxOps": wl, "Depth": wl},
-                              simulate="num=%d" % ctx.pick(200, 1500), depth=wl + 1, seed=ctx.seed, timeout=ctx.pick(900, 3000))
+                              simulate="num=%d" % ctx.pick(600, 1500), depth=wl + 1, seed=ctx.seed, timeout=ctx.pick(900, 3000))
         if not ctx.quick():
             allb += ctx.behaviours("state", "Gen_WorldState", "Gen_WorldState.cfg", constants={"MaxOps": 2, "Depth": 2,
                                    "Accts": '{"a", "b"}', "MaxSnaps": 1}, timeout=1800)
